@@ -8,7 +8,25 @@
 //        I <x0> <f0> <g0> <fcalls> <gcalls>
 //        { <x> <g> <f> <d> <t0> <ok> <t> <x'> <g'> <f'> <iter_ok> <fcalls> <gcalls> }*logged
 // (fr, gr: the plain function re-evaluated at the returned point; the A line carries the oracle answers the model replays)
+//
+// family `ls0` (the step-initialisation strategies src/lsearch0/*.cpp and the glue lsearch_t::get, src/solver/lsearch.cpp):
+//   ls0 run  <np0> {<lsearch0 parameter> <value>}*np0 <solver id> <lsearch0> <lsearchk> <np> {…} <function> <x0>
+//            a real solver run with the lsearch0 object configured over its parameter domains; every lsearch_t::get is logged
+//   ls0 glue <lsearch0> <lsearchk> <np0> {…}*np0 <epsilon> <c1> <c2> <function> <calls> {<x | empty = continue> <d>}*calls
+//            a stand-alone lsearch_t (built as solver_t::make_lsearch builds it) used on any sequence of points and directions
+//            (non-descent directions, calls after a failed search, … — what a solver run never does)
+//   ls0 hist <lsearch0> <np0> {…}*np0 <n> <calls> {<x> <fx> <gx> <d> <last_step_size> <f(trial)>}*calls
+//            a stand-alone lsearch0 object fed ANY history (scripted function values: non-finite ones, zero gradients, …)
+//   R ok <calls> <logged> {<t0> <ok> <t>}*logged
+//   A <op line> | <strategy> <glue 0/1> <epsilon> <constant::t0> <linear::beta> <linear::alpha> <quadratic::beta> <quadratic::alpha>
+//        <phi0> <phi1> <phi2> <n> <calls> <logged>
+//        { <x> <g> <f> <d> <last> <g.d> <|x|inf> <|g|inf> <|g|^2> <has trial> <trial point> <f(trial)> <t0> <ok> <t> <x'> <g'> <f'> }*logged
+// (the four reductions are Eigen's, computed here on copies of the logged vectors; the trial point and its value are what the
+//  counting wrapper / the scripted function saw)
 #include "c01_common.h"
+#include <nano/lsearch0.h>
+#include <nano/lsearchk.h>
+#include <nano/solver/lsearch.h>
 #include <solver/quasi.h>
 
 using namespace vs;
@@ -25,6 +43,362 @@ void put_vec(out_t& out, const double* v, size_t n)
         out << v[i];
     }
 }
+
+// ---- family ls0 ------------------------------------------------------------------------------------------------------------
+struct call_rec_t
+{
+    std::vector<double> x, g, d, trial, x1, g1;
+    double              f{0}, last{0}, dgE{0}, xnE{0}, gnE{0}, gsqE{0}, ftrial{0}, t0{0}, t{0}, f1{0};
+    int                 has_trial{0}, ok{0};
+};
+
+void reductions(call_rec_t& c)
+{
+    const auto x = vs::to_vector(c.x);
+    const auto g = vs::to_vector(c.g);
+    const auto d = vs::to_vector(c.d);
+    c.dgE        = g.dot(d);
+    c.xnE        = x.lpNorm<Eigen::Infinity>();
+    c.gnE        = g.lpNorm<Eigen::Infinity>();
+    c.gsqE       = g.squaredNorm();
+}
+
+void put_call(out_t& a, const call_rec_t& c)
+{
+    put_vec(a, c.x.data(), c.x.size());
+    put_vec(a, c.g.data(), c.g.size());
+    a << c.f;
+    put_vec(a, c.d.data(), c.d.size());
+    a << c.last << c.dgE << c.xnE << c.gnE << c.gsqE << static_cast<long long>(c.has_trial);
+    put_vec(a, c.trial.data(), c.trial.size());
+    a << c.ftrial << c.t0 << static_cast<long long>(c.ok) << c.t;
+    put_vec(a, c.x1.data(), c.x1.size());
+    put_vec(a, c.g1.data(), c.g1.size());
+    a << c.f1;
+}
+
+double l0param(const lsearch0_t& l0, const char* name, double otherwise)
+{
+    for (const auto& p : l0.parameters())
+    {
+        if (p.name() == name)
+        {
+            return p.value<scalar_t>();
+        }
+    }
+    return otherwise;
+}
+
+void put_params(out_t& a, const lsearch0_t& l0, const bool glue, const double epsilon, const size_t n, const size_t calls,
+                const size_t logged)
+{
+    a << l0.type_id() << static_cast<long long>(glue ? 1 : 0) << epsilon << l0param(l0, "lsearch0::constant::t0", 1.0)
+      << l0param(l0, "lsearch0::linear::beta", 10.0) << l0param(l0, "lsearch0::linear::alpha", 1.01)
+      << l0param(l0, "lsearch0::quadratic::beta", 10.0) << l0param(l0, "lsearch0::quadratic::alpha", 1.01)
+      << l0param(l0, "lsearch0::cgdescent::phi0", 0.01) << l0param(l0, "lsearch0::cgdescent::phi1", 0.1)
+      << l0param(l0, "lsearch0::cgdescent::phi2", 2.0) << static_cast<long long>(n) << static_cast<long long>(calls)
+      << static_cast<long long>(logged);
+}
+
+rlsearch0_t make_lsearch0(toks_t& t, const std::string& id)
+{
+    auto l0 = lsearch0_t::all().get(id);
+    if (!l0)
+    {
+        throw bad_op("unknown lsearch0 " + id);
+    }
+    const auto np0 = t.i64();
+    for (int64_t k = 0; k < np0; ++k)
+    {
+        const auto name    = t.s();
+        l0->parameter(name) = t.f();
+    }
+    return l0;
+}
+
+// index into the wrapper's log of the first evaluation made after `units` units had been counted
+size_t ev_index(const evlog_t& log, const long units)
+{
+    long   acc = 0;
+    size_t k   = 0;
+    while (k < log.evs.size() && acc < units)
+    {
+        acc += 1 + (log.evs[k].has_g ? 1 : 0);
+        ++k;
+    }
+    return k;
+}
+
+// the calls of lsearch_t::get logged by the hooks lsearch.begin / lsearch.end (+ the wrapper's log for the strategy's own evaluation)
+std::vector<call_rec_t> calls_of(const std::vector<record_t>& records, const evlog_t& log, const size_t n, const bool cgdescent)
+{
+    std::vector<call_rec_t> out;
+    const record_t*         begin = nullptr;
+    for (const auto& rec : records)
+    {
+        if (rec.tag == "lsearch.begin")
+        {
+            begin = &rec;
+        }
+        else if (rec.tag == "lsearch.end" && begin != nullptr)
+        {
+            const auto& b = begin->v;
+            const auto& e = rec.v;
+            if (b.size() != 3 * (n + 1) + 2 || e.size() != 3 + 2 * (n + 1) + 1)
+            {
+                throw bad_op("trace-record-size");
+            }
+            call_rec_t c;
+            c.x.assign(&b[1], &b[1] + n);
+            c.g.assign(&b[n + 2], &b[n + 2] + n);
+            c.f = b[2 * (n + 1)];
+            c.d.assign(&b[2 * (n + 1) + 2], &b[2 * (n + 1) + 2] + n);
+            c.last = b[3 * (n + 1) + 1];
+            c.t0   = e[0];
+            c.ok   = e[1] != 0.0 ? 1 : 0;
+            c.t    = e[2];
+            c.x1.assign(&e[4], &e[4] + n);
+            c.g1.assign(&e[4 + n + 1], &e[4 + n + 1] + n);
+            c.f1 = e[4 + 2 * (n + 1) - 1];
+            reductions(c);
+            // cgdescent.cpp:50-51: one VALUE evaluation (no gradient) before the search, unless last_step_size < 0
+            if (cgdescent && !(c.last < 0.0))
+            {
+                const auto k = ev_index(log, begin->units);
+                if (k < log.evs.size() && !log.evs[k].has_g && log.evs[k].x.size() == n)
+                {
+                    c.has_trial = 1;
+                    c.trial     = log.evs[k].x;
+                    c.ftrial    = log.evs[k].f;
+                }
+            }
+            out.push_back(std::move(c));
+            begin = nullptr;
+        }
+    }
+    return out;
+}
+
+std::string finish_ls0(const std::vector<call_rec_t>& calls, const lsearch0_t& l0, const bool glue, const double epsilon,
+                       const size_t n, std::string& aug)
+{
+    const auto logged = std::min(calls.size(), max_logged);
+    out_t      res;
+    res << "ok" << static_cast<long long>(calls.size()) << static_cast<long long>(logged);
+    out_t a;
+    a << aug << "|";
+    put_params(a, l0, glue, epsilon, n, calls.size(), logged);
+    for (size_t k = 0; k < logged; ++k)
+    {
+        res << calls[k].t0 << static_cast<long long>(calls[k].ok) << calls[k].t;
+        put_call(a, calls[k]);
+    }
+    aug = a.str();
+    return res.str();
+}
+
+struct sink_guard_t
+{
+    sink_guard_t(std::vector<record_t>& records, evlog_t& log)
+    {
+        tls().records             = &records;
+        tls().log                 = &log;
+        nano::verif::trace_sink() = &sink;
+    }
+    ~sink_guard_t()
+    {
+        nano::verif::trace_sink() = nullptr;
+        tls().records             = nullptr;
+        tls().log                 = nullptr;
+    }
+};
+
+std::string ls0_run(toks_t& t, std::string& aug)
+{
+    // the lsearch0 parameters come first; the lsearch0 id is the second token after the solver id
+    const auto                                  np0 = t.i64();
+    std::vector<std::pair<std::string, double>> p0;
+    for (int64_t k = 0; k < np0; ++k)
+    {
+        const auto name = t.s();
+        p0.emplace_back(name, t.f());
+    }
+    const auto sid    = t.s();
+    auto       solver = vs::make_solver(sid);
+    if (solver->type() != solver_type::line_search)
+    {
+        throw bad_op("not a line-search solver");
+    }
+    vs::configure(t, *solver);
+    {
+        auto l0 = solver->lsearch0().clone();
+        for (const auto& [name, value] : p0)
+        {
+            l0->parameter(name) = value;
+        }
+        solver->lsearch0(*l0);
+    }
+    auto problem = vs::parse_problem(t);
+    vs::add_constraints(t, *problem.plain);
+    const auto x0 = t.fs();
+    if (static_cast<tensor_size_t>(x0.size()) != problem.plain->size())
+    {
+        throw bad_op("x0 size");
+    }
+    const auto n   = static_cast<size_t>(problem.plain->size());
+    auto       log = std::make_shared<evlog_t>();
+    wrap_t     wrapped(*problem.plain, log);
+
+    std::vector<record_t> records;
+    const auto            logger = make_null_logger();
+    {
+        const sink_guard_t guard(records, *log);
+        solver->minimize(wrapped, vs::to_vector(x0), logger);
+    }
+    const auto& l0    = solver->lsearch0();
+    const auto  calls = calls_of(records, *log, n, l0.type_id() == "cgdescent");
+    return finish_ls0(calls, l0, true, solver->parameter("solver::epsilon").value<scalar_t>(), n, aug);
+}
+
+std::string ls0_glue(toks_t& t, std::string& aug)
+{
+    const auto id0 = t.s();
+    const auto idk = t.s();
+    auto       l0  = make_lsearch0(t, id0);
+    auto       lk  = lsearchk_t::all().get(idk);
+    if (!lk)
+    {
+        throw bad_op("unknown lsearchk " + idk);
+    }
+    const auto epsilon = t.f();
+    const auto c1      = t.f();
+    const auto c2      = t.f();
+    // solver.cpp:101-106 make_lsearch
+    l0->parameter("lsearch0::epsilon")   = epsilon;
+    lk->parameter("lsearchk::tolerance") = std::make_tuple(c1, c2);
+    auto problem = vs::parse_problem(t);
+    vs::add_constraints(t, *problem.plain);
+    const auto n     = static_cast<size_t>(problem.plain->size());
+    const auto ncall = t.i64();
+    auto       log   = std::make_shared<evlog_t>();
+    wrap_t     wrapped(*problem.plain, log);
+    auto       l0copy = l0->clone();
+
+    std::vector<record_t> records;
+    const auto            logger  = make_null_logger();
+    const auto            lsearch = lsearch_t{std::move(l0), std::move(lk)};
+    {
+        const sink_guard_t              guard(records, *log);
+        std::unique_ptr<solver_state_t> state;
+        for (int64_t k = 0; k < ncall; ++k)
+        {
+            const auto x = t.fs();
+            const auto d = t.fs();
+            if ((x.size() != n && !(x.empty() && state)) || d.size() != n)
+            {
+                throw bad_op("glue sizes");
+            }
+            if (!x.empty())
+            {
+                state = std::make_unique<solver_state_t>(wrapped, vs::to_vector(x));
+            }
+            lsearch.get(*state, vs::to_vector(d), logger);
+        }
+    }
+    const auto calls = calls_of(records, *log, n, id0 == "cgdescent");
+    return finish_ls0(calls, *l0copy, true, epsilon, n, aug);
+}
+
+// a function whose answers are scripted: (f, g) when the gradient is asked for (the construction of the state), the value of
+// the trial point otherwise (the strategy's own evaluation)
+struct script_t
+{
+    double              f{0}, ftrial{0};
+    std::vector<double> g, trial;
+    int                 trials{0};
+};
+
+class scripted_t final : public function_t
+{
+public:
+    scripted_t(tensor_size_t n, std::shared_ptr<script_t> s)
+        : function_t("scripted", n)
+        , m_s(std::move(s))
+    {
+        convex(convexity::no);
+        smooth(smoothness::yes);
+    }
+
+    rfunction_t clone() const override { return std::make_unique<scripted_t>(*this); }
+
+    scalar_t do_vgrad(vector_cmap_t x, vector_map_t gx) const override
+    {
+        auto& s = *m_s;
+        if (gx.size() == x.size())
+        {
+            for (tensor_size_t i = 0; i < gx.size(); ++i)
+            {
+                gx(i) = s.g[static_cast<size_t>(i)];
+            }
+            return s.f;
+        }
+        s.trial.assign(x.data(), x.data() + x.size());
+        ++s.trials;
+        return s.ftrial;
+    }
+
+private:
+    std::shared_ptr<script_t> m_s;
+};
+
+std::string ls0_hist(toks_t& t, std::string& aug)
+{
+    const auto id0   = t.s();
+    auto       l0    = make_lsearch0(t, id0);
+    const auto n     = static_cast<size_t>(t.i64());
+    const auto ncall = t.i64();
+    if (n < 1 || n > 64 || ncall < 0)
+    {
+        throw bad_op("hist sizes");
+    }
+    auto                    script = std::make_shared<script_t>();
+    const scripted_t        function(static_cast<tensor_size_t>(n), script);
+    std::vector<call_rec_t> calls;
+    for (int64_t k = 0; k < ncall; ++k)
+    {
+        call_rec_t c;
+        c.x    = t.fs();
+        c.f    = t.f();
+        c.g    = t.fs();
+        c.d    = t.fs();
+        c.last = t.f();
+        const auto ftrial = t.f();
+        if (c.x.size() != n || c.g.size() != n || c.d.size() != n)
+        {
+            throw bad_op("hist vector sizes");
+        }
+        script->f      = c.f;
+        script->g      = c.g;
+        script->ftrial = ftrial;
+        script->trials = 0;
+        const auto state = solver_state_t{function, vs::to_vector(c.x)};
+        c.t0             = l0->get(state, vs::to_vector(c.d), c.last);
+        if (script->trials > 0)
+        {
+            c.has_trial = 1;
+            c.trial     = script->trial;
+            c.ftrial    = ftrial;
+        }
+        c.ok = 1;
+        c.t  = c.last;
+        c.x1 = c.x;
+        c.g1 = c.g;
+        c.f1 = c.f;
+        reductions(c);
+        calls.push_back(std::move(c));
+    }
+    return finish_ls0(calls, *l0, false, l0param(*l0, "lsearch0::epsilon", 1e-6), n, aug);
+}
 } // namespace
 
 std::string vh::execute(toks_t& t, std::string& aug)
@@ -34,6 +408,18 @@ std::string vh::execute(toks_t& t, std::string& aug)
     if (fam == "solver" && op == "list")
     {
         return vs::list_functions();
+    }
+    if (fam == "ls0" && op == "run")
+    {
+        return ls0_run(t, aug);
+    }
+    if (fam == "ls0" && op == "glue")
+    {
+        return ls0_glue(t, aug);
+    }
+    if (fam == "ls0" && op == "hist")
+    {
+        return ls0_hist(t, aug);
     }
     if (fam != "solver" || op != "run")
     {
